@@ -18,8 +18,10 @@ ALPHA = {1: "a", 2: "b"}
 SUFFIX = {"eq": "", "in": "_in_", "not_in": "_not_in_", "is_none": "_is_none_", "is_not_none": "_is_not_none_",
           "ne": "_ne_", "lt": "_lt_", "le": "_le_", "gt": "_gt_", "ge": "_ge_", "like": "_like_",
           "not_like": "_not_like_"}
-INT_ATTRS = ["id", "parent_id", "prio"]
-STR_ATTRS = ["tag", "name"]
+# "margin" ends like the suffix "_in_" does, "alias_" ends in the separator: suffixes are cut off, never stripped
+INT_ATTRS = ["id", "parent_id", "prio", "margin"]
+STR_ATTRS = ["tag", "name", "alias_"]
+CUSTOM = ["prio", "tag", "name", "zz", "margin", "alias_", "index"]     # "index": also a member of the list class
 
 
 def iv(i):
@@ -47,7 +49,9 @@ def gen_world(rng, n):
     ids = rng.sample(range(0, 2 * n + 1), n)
     attrs = []
     for i in range(n):
-        a = {"prio": iv(rng.randint(0, 2)), "zz": ABSENT}
+        a = {"prio": iv(rng.randint(0, 2)), "zz": ABSENT, "index": ABSENT}
+        a["margin"] = ABSENT if rng.random() < 0.4 else (NONE if rng.random() < 0.2 else iv(rng.randint(0, 2)))
+        a["alias_"] = ABSENT if rng.random() < 0.5 else (NONE if rng.random() < 0.2 else rand_str(rng))
         r = rng.random()
         a["tag"] = ABSENT if r < 0.3 else (NONE if r < 0.45 else rand_str(rng))
         a["name"] = NONE if rng.random() < 0.25 else rand_str(rng)
@@ -61,8 +65,36 @@ def gen_world(rng, n):
         if es.legal_link(tasks, a, b) and b not in tasks[a - 1]["pre"]:
             tasks[a - 1]["pre"].append(b)
             pre[a - 1].append(b)
-    return {"par": [t["par"] for t in tasks], "kids": [t["kids"] for t in tasks], "roots": roots, "ids": ids,
-            "attrs": attrs, "pre": pre, "suc": []}
+    W = {"par": [t["par"] for t in tasks], "kids": [t["kids"] for t in tasks], "roots": roots, "ids": ids,
+         "attrs": attrs, "pre": pre, "suc": [], "nm": n}
+    # tasks OUTSIDE the WBS (numbers n+1..: members of another WBS or free-standing), linked to members; their ids
+    # may equal a member's id - link lists then hold two different tasks with equal ids
+    W["hot"] = 0
+    if rng.random() < 0.3:
+        for k in range(rng.choice([1, 2])):
+            twin = rng.randint(1, n)                 # the member whose id (and most attributes) the outside task shares
+            collide = rng.random() < 0.7
+            W["ids"].append(ids[twin - 1] if collide else 2 * n + 3 + k)
+            W["par"].append(0)
+            W["kids"].append([])
+            W["pre"].append([])
+            a = dict(attrs[twin - 1])
+            a["prio"] = iv(a["prio"]["v"] + 1)       # ... but not all: filters can tell the two apart
+            attrs.append(a)
+            x = len(W["ids"])
+            m = rng.randint(1, n)
+            if rng.random() < 0.5:
+                W["pre"][m - 1].append(x)            # the outside task precedes a member
+                if collide and es.legal_link(tasks, m, twin) and twin not in W["pre"][m - 1]:
+                    tasks[m - 1]["pre"].append(twin)
+                    W["pre"][m - 1].append(twin)     # ... next to its twin
+            else:
+                W["pre"][x - 1].append(m)            # ... or waits for one
+                if collide and es.legal_link(tasks, twin, m) and m not in W["pre"][twin - 1]:
+                    tasks[twin - 1]["pre"].append(m)
+                    W["pre"][twin - 1].append(m)
+            W["hot"] = m
+    return W
 
 
 def build(W):
@@ -72,8 +104,9 @@ def build(W):
     for i in range(n):
         a = W["attrs"][i]
         kw = {"prio": py(a["prio"])}
-        if a["tag"]["k"] != "absent":
-            kw["tag"] = py(a["tag"])
+        for nm in ("tag", "margin", "alias_"):
+            if a[nm]["k"] != "absent":
+                kw[nm] = py(a[nm])
         if a.get("stale", ABSENT)["k"] != "absent":
             kw["parent_id"] = py(a["stale"])
         objs.append(pj.Task(W["ids"][i], name=py(a["name"]), **kw))
@@ -85,6 +118,10 @@ def build(W):
             attach(objs[c - 1].children, W["kids"][c - 1])
 
     attach(w.roots, W["roots"])
+    other = pj.WBS()
+    for x in range(W.get("nm", n) + 1, n + 1):
+        if x % 2:
+            other.roots.append(objs[x - 1])
     for i, pre in enumerate(W["pre"]):
         if pre:
             objs[i].predecessors = [objs[p - 1] for p in pre]
@@ -128,8 +165,8 @@ def project(w, objs):
             "ids": [o.id for o in objs],
             "pre": [[g(p) for p in o.predecessors] for o in objs],
             "suc": [[g(p) for p in o.successors] for o in objs],
-            "attrs": [{"prio": value_of(o, "prio"), "tag": value_of(o, "tag"), "name": value_of(o, "name"),
-                       "zz": value_of(o, "zz"), "stale": value_of(o, "parent_id")} for o in objs]}
+            "attrs": [dict({nm: value_of(o, nm) for nm in CUSTOM}, stale=value_of(o, "parent_id")) for o in objs],
+            "nm": sum(1 for o in objs if o.wbs is w)}
 
 
 def the_list(w, objs, l):
@@ -209,6 +246,11 @@ def gen_event(rng, eid, kind=None):
         l = rng.choice([{"kind": "roots", "t": 0}, {"kind": "tasks", "t": 0},
                         {"kind": "children", "t": rng.randint(1, n)}, {"kind": "all_children", "t": rng.randint(1, n)},
                         {"kind": "preds", "t": rng.randint(1, n)}, {"kind": "succs", "t": rng.randint(1, n)}])
+    hot = W.pop("hot")
+    if hot and rng.random() < 0.5:          # the link lists that hold tasks from outside the WBS
+        l = {"kind": rng.choice(["preds", "succs"]), "t": hot}
+        if kind in ("select", "bulkset") and rng.random() < 0.5:
+            kind = "removeall"
     if rng.random() < 0.15:
         qry = {"callable": rng.choice(sorted(CALLABLES)), "filters": []}
     else:
@@ -229,8 +271,8 @@ def gen_event(rng, eid, kind=None):
     elif kind == "index":
         ev["probe"] = rng.randint(1, n)
     if kind == "bulkset":
-        ev["attr"] = rng.choice(["tag", "prio", "name"])
-        ev["value"] = iv(rng.randint(5, 7)) if ev["attr"] == "prio" else rng.choice([NONE, sv([2, 2, 1])])
+        ev["attr"] = rng.choice(["tag", "prio", "name", "index", "margin"])
+        ev["value"] = iv(rng.randint(5, 7)) if ev["attr"] in ("prio", "index", "margin") else rng.choice([NONE, sv([2, 2, 1])])
     return ev
 
 
